@@ -372,8 +372,9 @@ PROPS = {
                    'format! of a literal with one placeholder after a brace-free prefix, Display of char and usize, '
                    'Formatter::write_str, `impl Debug for &T` forwards to T; str::len is the UTF-8 length (vstd::utf8). '
                    'KNOWN-FINDING C17-2: a name (Str) value whose first character is the alpha sign prints a text that is '
-                   'read back as an index. The clause "an edge bound under a parsed name is found under the same name built '
-                   'directly" is the composition with C03 (kid() compares labels with ==, structural by the Kani harness).',
+                   'read back as an index. "An equal label" is == on Label, structural for all chars / usize / [char; 8] by the complete '
+                   'Kani harness label_eq_is_structural (part of this check); "an edge bound under a parsed name is found under the '
+                   'same name built directly" is then the composition with C03 (kid() compares labels with ==).',
         design_ref='DESIGN.md §4 C17',
         trusted_base=[
             'shim/stdstr.rs: str::starts_with / str::parse::<usize> / Chars::count / String: FromIterator / Enumerate::next '
@@ -393,7 +394,8 @@ PROPS = {
         not_covered=['the characters std produces for a usize (dec_text is uninterpreted: non-empty digits, read back by parse)',
                      'which texts usize::from_str accepts beyond canonical numerals ("+5", "007" are accepted by std: not "malformed")',
                      'kid() lookups with parsed vs constructed labels: composition with C03, not a separate obligation'],
-        parts=[parts.native_audit('native-audit-of-the-trusted-std-contracts')],
+        parts=[parts.kani_group('kani-label-eq-is-structural', [TYPES_EQ[0], TYPES_EQ[2]], complete=True, kind='types'),
+               parts.native_audit('native-audit-of-the-trusted-std-contracts')],
         assumptions=['the std contracts of shim/stdstr.rs (audited natively in the thorough tier: exhaustive over char for '
                      'Display of char and str::len, sampled otherwise; an audit, not a proof)'],
     ),
